@@ -669,6 +669,9 @@ void sim_mutex::lock() {
   vc_join(me->vc, S.mtx_vc[id].data());
   record(EV_LOCK_ACQ, id, 0);
   sig_obj(id, me->id);
+  // a real thread can be preempted while it holds the mutex: others then see the contention (block, or fail a try_lock)
+  // and whatever the critical section has written so far
+  yield_point();
 }
 
 bool sim_mutex::try_lock() {
@@ -684,6 +687,7 @@ bool sim_mutex::try_lock() {
   vc_join(me->vc, S.mtx_vc[id].data());
   record(EV_LOCK_ACQ, id, 0);
   sig_obj(id, me->id);
+  yield_point();
   return true;
 }
 
@@ -771,6 +775,7 @@ static void cv_block(sim_condition_variable *cv, std::unique_lock<sim_mutex> &lk
   vc_join(me->vc, S.mtx_vc[id].data());
   record(EV_LOCK_ACQ, id, 1);
   sig_obj(id, me->id);
+  yield_point();   // holding the mutex again after the wait: preemptible here too
 }
 
 void sim_condition_variable::wait(std::unique_lock<sim_mutex> &lk) { cv_block(this, lk, false); }
